@@ -297,6 +297,12 @@ func decodeGraphCase(tier string, idx int, tape *Tape) *graphCase {
 		case 0, 1, 2, 3, 4:
 			c.Ops = append(c.Ops, gOp{Kind: gAddImm, V: tape.Choose(StOps, c.Pool), Deps: drawDeps()})
 		case 5, 6, 7:
+			if c.Readers > 0 {
+				// concurrent readers must not observe the window between a deferred add and
+				// its cycle check (the property makes the check part of the operation)
+				c.Ops = append(c.Ops, gOp{Kind: gAddImm, V: tape.Choose(StOps, c.Pool), Deps: drawDeps()})
+				continue
+			}
 			b := gOp{Kind: gAddDeferredBatch}
 			nb := 1 + tape.Choose(StOps, 4)
 			for j := 0; j < nb; j++ {
